@@ -88,6 +88,10 @@ def single_caller(maxretry, with_foreign):
 
                 def on_send(data):
                     a = len(env.tr.sent) - 1
+                    if a >= R:
+                        # more transmissions than the retry count: stop exploring this path here
+                        sx.check(False, "req.at-most-retry-count-transmissions", f"transmission #{a + 1} with retry count {R}")
+                        sx.assume(False)
                     # what arrives before each of the 3 polls of this attempt
                     for j in range(3):
                         c = sx.choice(f"attempt{a}_poll{j}", nopts)
@@ -187,6 +191,103 @@ def many_callers(maxcallers):
     return scenario
 
 
+def abnormal_holder(sx):
+    """a caller that leaves get() abnormally (its factory raises, or it is cancelled while its request is in
+    flight) must not block the callers queued behind it"""
+    import asyncio
+    import geckolib.driver as D
+    from sx.vloop import patched_time
+    env = Env()
+    try:
+        with patched_time(env.loop):
+            how = sx.choice("how", 2)          # 0: factory raises  1: cancelled in flight
+            done = {}
+
+            def on_send(data):
+                v = _verb(data).decode()
+                if v == "CURCH":
+                    env.loop.call_later(0.05, env.proto.datagram_received, KINDS[1][2], PARMS)
+            env.on_send = on_send
+
+            def bad_factory():
+                if how == 0:
+                    raise OverflowError(4)
+                return D.GeckoVersionProtocolHandler.request(1, parms=PARMS)
+
+            async def bad():
+                try:
+                    await env.proto.get(bad_factory, None, 2)
+                except OverflowError:
+                    done["bad"] = "raised"
+
+            async def good():
+                await asyncio.sleep(0.05)
+                r = await env.proto.get(lambda: D.GeckoGetChannelProtocolHandler.request(2, parms=PARMS), None, 2)
+                done["good"] = r is not None
+
+            async def main():
+                tb = asyncio.ensure_future(bad())
+                tg = asyncio.ensure_future(good())
+                if how == 1:
+                    await asyncio.sleep(0.15)
+                    tb.cancel()
+                await asyncio.wait([tb, tg], timeout=5.0)
+            env.loop.run_until_complete(main(), max_time=50.0)
+            sx.check(done.get("good") is True, "mx.caller-behind-an-abnormal-holder-completes", lambda: str(done))
+            sx.check(not env.proto.Lock.locked(), "req.lock-released")
+    finally:
+        env.close()
+
+
+def ping_gate(sx):
+    """the real ping loop: after the spa stops answering, once the last answer is older than twice the ping
+    period no command leaves, however long the silence lasts"""
+    import asyncio
+    from sx.vloop import patched_time
+    from geckolib.async_spa import GeckoAsyncSpa
+    from geckolib.async_spa_descriptor import GeckoAsyncSpaDescriptor
+    from geckolib.config import GeckoConfig
+    env = Env()
+    saved = (GeckoConfig.PING_FREQUENCY_IN_SECONDS, GeckoConfig.PING_DEVICE_NOT_RESPONDING_TIMEOUT_IN_SECONDS)
+    GeckoConfig.PING_FREQUENCY_IN_SECONDS, GeckoConfig.PING_DEVICE_NOT_RESPONDING_TIMEOUT_IN_SECONDS = 0.4, 1.0
+    try:
+        with patched_time(env.loop):
+            events = []
+
+            async def ev(e, **k):
+                events.append((e, env.loop.time()))
+            spa = GeckoAsyncSpa(CLI_ID, GeckoAsyncSpaDescriptor(SRC_ID, "spa", DEST), None, ev)
+            spa._protocol = env.proto
+            spa.pack_type, spa.config_version, spa.log_version = 10, 9, 9
+            spa._is_connected = True
+            answered = 1 + sx.choice("pings_answered", 2)
+            pongs = []
+
+            def on_send(data):
+                v = _verb(data)
+                if v == b"APING" and len(pongs) < answered:
+                    pongs.append(env.loop.time())
+                    env.loop.call_later(0.01, env.proto.datagram_received, b"APING\x00", PARMS)
+            env.on_send = on_send
+            when = [1.0, 1.8, 2.6, 3.4][sx.choice("command_at", 4)]
+
+            async def main():
+                t = asyncio.ensure_future(spa._ping_loop())
+                await asyncio.sleep(when)
+                await spa.async_press(1)
+                t.cancel()
+            env.loop.run_until_complete(main(), max_time=60.0)
+            spacks = [t for (d, a, t) in env.tr.sent if _verb(d) == b"SPACK"]
+            last_pong = max(pongs) + 0.01
+            silent_for = when - last_pong
+            sx.observe("spacks", len(spacks))
+            if silent_for > 2 * 0.4 + 0.2:
+                sx.check(not spacks, "gate.no-command-after-the-spa-fell-silent", lambda: f"SPACK at {spacks}, last pong {last_pong}")
+    finally:
+        GeckoConfig.PING_FREQUENCY_IN_SECONDS, GeckoConfig.PING_DEVICE_NOT_RESPONDING_TIMEOUT_IN_SECONDS = saved
+        env.close()
+
+
 def gates(sx):
     import time
     from sx.vloop import patched_time
@@ -243,3 +344,5 @@ def units(tier):
                    max_paths=200000)
     yield Unit("callers", many_callers(2 if q else 3), max_paths=100000)
     yield Unit("gates", gates)
+    yield Unit("abnormal-holder", abnormal_holder)
+    yield Unit("ping-gate", ping_gate)
